@@ -183,6 +183,41 @@ def getopt_cases(tier):
     return cases
 
 
+RAW_TEXTS = [
+    # (site, shell text): sh -c strings written as several quoted segments / with escapes
+    ("sh -c | several quoted segments", "sh -c 'ls '\"; rm x; \"'echo'"),
+    ("sh -c | several quoted segments", "bash -c 'ls '\"; git push\"''"),
+    ("sh -c | escaped backquote in double quotes", "sh -c \"echo \\`rm x\\`\""),
+    ("sh -c | escaped dollar-paren in double quotes", "sh -c \"echo \\$(rm x)\""),
+    ("sh -c | ansi-c segment", "sh -c 'ls #'$'\\n''rm x'"),
+    ("sh -c | backslash escapes", "sh -c ls\\;rm\\ x"),
+    ("env | several quoted segments", "env 'ls'\"; rm x\"''"),
+    ("xargs sh -c | several quoted segments", "xargs sh -c 'ls '\"; rm x; \"'echo'"),
+]
+
+
+def odd_cases(tier):
+    """command names the wrapper loop mistakes for numbers/flags; a bare launcher fed by xargs;
+    sh -c strings written as several quoted segments / with escapes (word-value extraction)."""
+    cases = []
+    for tool, pre in (("nohup", []), ("command", []), ("nice", []), ("timeout", ["5"]), ("builtin", ["command"]), ("env", [])):
+        for name in ("5", "-"):
+            for rest in (["ls"], ["rm", "x"]):
+                words = [tool] + pre + [name] + rest
+                cases.append(Case(q(words), words, tool, f"{tool} | command named {name}", " ".join([name] + rest), validate=False))
+    words = ["timeout", "5", "--", "ls"]
+    cases.append(Case(q(words), words, "timeout", "timeout | -- after the duration", "-- ls", validate=False))
+    words = ["xargs", "-e", "STOP", "head"]
+    cases.append(Case(q(words), words, "xargs", "xargs | -e followed by a separate word (pinned by tests/cli/test_xargs.py)", "STOP head", validate=False))
+    for launcher in (["env"], ["env", "-i", f"PATH={BIN}"], ["nice"], ["nohup"], ["sh", "-c"], ["xargs"], ["timeout", "5"], ["command"]):
+        words = ["xargs"] + launcher
+        cases.append(Case(q(words), words, "xargs", "xargs | bare launcher, stdin supplies the command", " ".join(launcher),
+                          stdin=b"rm x\n", validate=False, plain_inner=False))
+    for site, text in RAW_TEXTS:
+        cases.append(Case(text, text.split(), text.split()[0], site, "raw", validate=False, plain_inner=False, stdin=b""))
+    return cases
+
+
 def env_split_cases(tier):
     cases = []
     small, full = inner_pool(tier)
@@ -276,7 +311,7 @@ def shell_cases(tier):
                 plain = all(iname != n for n, _ in NESTED)
                 runs_script = "script.sh" in words and words.index("script.sh") < (words.index(s) if s in words else 99)
                 cases.append(Case(q(words), words, sh, f"{sh} | {label}", iname, plain_inner=plain, stdin=b"",
-                                  validate=plain, expect=[iw], tags={"script": runs_script}))
+                                  validate=plain and iw[0] != "echo", expect=[iw], tags={"script": runs_script}))
     return cases
 
 
